@@ -141,6 +141,11 @@ class Ast:
                 reg_fn(o, cls)
             elif k == "VarDecl":
                 reg_var(o, None)
+            elif k == "NamespaceDecl":
+                for m in o.get("inner", []):
+                    if m.get("kind") == "VarDecl":
+                        m["_namespace"] = o.get("name")
+                        reg_var(m, None)
 
     def resolve_fn(self, decl_id):
         """Map a referencedDecl id (possibly the in-class declaration) to the definition."""
